@@ -9,7 +9,7 @@ PROP = dict(
         level_note="Trusted: oracle.Key, the harness's own record-path walker. Not covered: vcache.Cache (storage-engine fetch and object reuse across queries), concurrent Fetch calls on one object.",
         technique="property-based testing (rapid) with statistics-shaped generators",
         tests=[
-            dict(name="TestVNGRoundTrip", quick=(8, 300), thorough=(16, 4000)),
-            dict(name="TestVNGNullInUnion", quick=(2, 150), thorough=(4, 1500)),
+            dict(name="TestVNGRoundTrip", quick=(8, 300), thorough=(16, 3000)),
+            dict(name="TestVNGNullInUnion", quick=(2, 150), thorough=(4, 1000)),
         ],
 )
